@@ -258,3 +258,247 @@ theorem sinkOne_shape (cfg : Cfg) (hcap : 1 ≤ cfg.leafCap) (ps : PS) (t : Tree
     · simp [List.append_assoc]
 
 end Nervus.Crash
+
+namespace Nervus.Crash
+
+/-- the actions of one insertion, in the three cases of `BTree::insert` -/
+theorem sinkOne_eq (cfg : Cfg) (ps : PS) (t : TreeImg) (q : Nat) (Xi : List (List Nat)) (last : List Nat) (pids : List Nat)
+    (hl : t.leaves = mkLeaves (Xi ++ [last]) pids) (hs : last.Pairwise (· ≤ ·)) (hq : ∀ x ∈ last, x ≤ q) :
+    ∃ p : Nat,
+    (last.length < cfg.leafCap →
+      sinkOneA cfg ps t q =
+        ((allocA ps).1 ++ [ioA (.pg (.blob t.key q) (allocA ps).2.2)] ++
+          [ioA (.pg (.leaf t.key Xi.length ((last ++ [q]).map some) false p) p)],
+         (allocA ps).2.1, treeApp t q Xi.length (last ++ [q]) p)) ∧
+    (¬ last.length < cfg.leafCap → t.inode = none →
+      sinkOneA cfg ps t q =
+        ((allocA ps).1 ++ [ioA (.pg (.blob t.key q) (allocA ps).2.2)] ++ (allocA (allocA ps).2.1).1 ++
+          [ioA (.pg (.leaf t.key Xi.length (((last ++ [q]).take ((last.length + 1) / 2)).map some) true p) p),
+           ioA (.pg (.leaf t.key (Xi.length + 1) (((last ++ [q]).drop ((last.length + 1) / 2)).map some) false (allocA (allocA ps).2.1).2.2)
+             (allocA (allocA ps).2.1).2.2)] ++ (allocA (allocA (allocA ps).2.1).2.1).1 ++
+          [ioA (.pg (.inode t.key [((last ++ [q]).drop ((last.length + 1) / 2)).headD 0] (allocA (allocA (allocA ps).2.1).2.1).2.2)
+            (allocA (allocA (allocA ps).2.1).2.1).2.2)],
+         (allocA (allocA (allocA ps).2.1).2.1).2.1,
+         treeSplit t q Xi.length ((last ++ [q]).take ((last.length + 1) / 2)) ((last ++ [q]).drop ((last.length + 1) / 2)) p
+           (allocA (allocA ps).2.1).2.2 (allocA (allocA (allocA ps).2.1).2.1).2.2)) ∧
+    (¬ last.length < cfg.leafCap → ∀ seps, t.inode = some seps →
+      sinkOneA cfg ps t q =
+        ((allocA ps).1 ++ [ioA (.pg (.blob t.key q) (allocA ps).2.2)] ++ (allocA (allocA ps).2.1).1 ++
+          [ioA (.pg (.leaf t.key Xi.length (((last ++ [q]).take ((last.length + 1) / 2)).map some) true p) p),
+           ioA (.pg (.leaf t.key (Xi.length + 1) (((last ++ [q]).drop ((last.length + 1) / 2)).map some) false (allocA (allocA ps).2.1).2.2)
+             (allocA (allocA ps).2.1).2.2)] ++
+          [ioA (.pg (.inode t.key (seps ++ [((last ++ [q]).drop ((last.length + 1) / 2)).headD 0]) t.inodePid) t.inodePid)],
+         (allocA (allocA ps).2.1).2.1,
+         treeSplit t q Xi.length ((last ++ [q]).take ((last.length + 1) / 2)) ((last ++ [q]).drop ((last.length + 1) / 2)) p
+           (allocA (allocA ps).2.1).2.2 0)) := by
+  obtain ⟨p, hp⟩ := mkLeaves_snoc_get Xi last pids ⟨[], false, t.key⟩
+  have hlen : t.leaves.length - 1 = Xi.length := by rw [hl, mkLeaves_snoc_len]; omega
+  have hleaf : t.leaves[Xi.length]?.getD ⟨[], false, t.key⟩ = ⟨last.map some, false, p⟩ := by
+    rw [← List.getD_eq_getElem?_getD, hl]; exact hp
+  have hes : insertSorted q (last.map some) = (last ++ [q]).map some := by
+    rw [insertSorted_map, insNat_ge q last hs hq]
+  have hsep : ∀ l : List Nat, ((l.map some).headD none).getD 0 = l.headD 0 := by
+    intro l; cases l <;> simp
+  refine ⟨p, ?_, ?_, ?_⟩
+  · intro hc
+    simp [sinkOneA, hlen, hleaf, hes, hc, treeApp]
+  · intro hc hin
+    simp only [sinkOneA, hlen, List.getD_eq_getElem?_getD, hleaf, hes, hc, hin, List.length_map, if_false, List.length_append,
+      List.length_singleton, treeSplit]
+    simp only [← List.map_take, ← List.map_drop, hsep, Option.getD_none, List.nil_append, Option.isSome_none, Bool.false_eq_true, if_false]
+  · intro hc seps hin
+    simp only [sinkOneA, hlen, List.getD_eq_getElem?_getD, hleaf, hes, hc, hin, List.length_map, if_false, List.length_append,
+      List.length_singleton, treeSplit]
+    simp only [← List.map_take, ← List.map_drop, hsep, Option.getD_some, Option.isSome_some, if_true]
+
+end Nervus.Crash
+
+namespace Nervus.Crash
+
+def TreeE : PEff → Prop
+  | .treeNew _ => True
+  | .blob _ _ => True
+  | .leaf _ _ _ _ _ => True
+  | .inode _ _ _ => True
+  | .stats => True
+  | _ => False
+
+theorem treeFind_upd (p : PImg) (k : Nat) (f : TreeImg → TreeImg) (hf : ∀ t, (f t).key = t.key) (t : TreeImg)
+    (h : treeFind p k = some t) : treeFind { p with trees := updTree p.trees k f } k = some (f t) := by
+  have hk : t.key = k := (treeFind_key h).2
+  have := find_updTree p.trees k f hf k
+  simp only [treeFind] at h ⊢
+  rw [h] at this
+  simpa [hk] using this
+
+theorem sortNat_pairwise : ∀ xs : List Nat, (sortNat xs).Pairwise (· ≤ ·)
+  | [] => by simp [sortNat]
+  | x :: xs => by
+    have ih := sortNat_pairwise xs
+    unfold sortNat at ih ⊢
+    simp only [List.foldr_cons]
+    generalize List.foldr (fun x acc => List.filter (fun x_1 => decide (x_1 < x)) acc ++ [x] ++ List.filter (fun y => decide ¬y < x) acc) [] xs = acc at ih ⊢
+    rw [List.append_assoc, List.pairwise_append]
+    refine ⟨ih.sublist List.filter_sublist, ?_, ?_⟩
+    · rw [List.pairwise_append]
+      refine ⟨by simp, ih.sublist List.filter_sublist, ?_⟩
+      intro a ha b hb
+      simp at ha hb
+      omega
+    · intro a ha b hb
+      simp only [List.mem_filter, decide_eq_true_eq] at ha
+      simp only [List.mem_append, List.mem_singleton, List.mem_filter, decide_eq_true_eq] at hb
+      rcases hb with rfl | ⟨_, hb⟩ <;> omega
+
+variable {p0 : PImg} {live lo : Nat} {allowed covered : List Nat} {top : Bool}
+
+/-- **one insertion into a tree that is not the live one** (with or without a leaf split): block
+    judgement and the volatile tree -/
+theorem pblk_sinkOneNew (cfg : Cfg) (nd : Nat) (ps : PS) (t : TreeImg) (q : Nat) (Xi : List (List Nat)) (last : List Nat) (pids : List Nat)
+    (hsk : SameKey p0.hdr ps.pm) (hnp : min ps.bm ps.pm.nextPage = nd) (hk : t.key ≠ live)
+    (hl : t.leaves = mkLeaves (Xi ++ [last]) pids) (hs : last.Pairwise (· ≤ ·)) (hq : ∀ x ∈ last, x ≤ q) :
+    ∃ nd' effs, PBlk p0 live allowed covered top lo nd ps (sinkOneA cfg ps t q).1 effs nd' (sinkOneA cfg ps t q).2.1 ∧
+      (∀ e ∈ effs, TreeE e) ∧
+      ∀ p : PImg, treeFind p t.key = some t → treeFind (applyEffs effs p) t.key = some (sinkOneA cfg ps t q).2.2 := by
+  obtain ⟨pl, hA, hB, hC⟩ := sinkOne_eq cfg ps t q Xi last pids hl hs hq
+  obtain ⟨ba, _, _⟩ := pblk_alloc_eq (p0 := p0) (live := live) (lo := lo) (allowed := allowed) (covered := covered) (top := top) ps hsk hnp
+  have bb := pblk_write (p0 := p0) (live := live) (lo := lo) (allowed := allowed) (covered := covered) (top := top) ba.sk ba.np
+    (.blob t.key q) (allocA ps).2.2 trivial
+  have hblob : ∀ p : PImg, treeFind p t.key = some t →
+      treeFind (applyEff (.blob t.key q) p) t.key = some { t with blobs := q :: t.blobs } :=
+    fun p h => treeFind_upd p t.key (fun t => { t with blobs := q :: t.blobs }) (fun _ => rfl) t h
+  have hleafE : ∀ (p : PImg) (t' : TreeImg) (i : Nat) (es : List (Option Nat)) (sib : Bool) (pid : Nat), treeFind p t.key = some t' →
+      treeFind (applyEff (.leaf t.key i es sib pid) p) t.key = some { t' with leaves := setLeaf t'.leaves i ⟨es, sib, pid⟩ } :=
+    fun p t' i es sib pid h => treeFind_upd p t.key (fun t => { t with leaves := setLeaf t.leaves i ⟨es, sib, pid⟩ }) (fun _ => rfl) t' h
+  have hinoE : ∀ (p : PImg) (t' : TreeImg) (seps : List Nat) (pid : Nat), treeFind p t.key = some t' →
+      treeFind (applyEff (.inode t.key seps pid) p) t.key = some { t' with inode := some seps, inodePid := pid } :=
+    fun p t' seps pid h => treeFind_upd p t.key (fun t => { t with inode := some seps, inodePid := pid }) (fun _ => rfl) t' h
+  by_cases hc : last.length < cfg.leafCap
+  · rw [hA hc]
+    have bl := pblk_write (p0 := p0) (live := live) (lo := lo) (allowed := allowed) (covered := covered) (top := top) ba.sk ba.np
+      (.leaf t.key Xi.length ((last ++ [q]).map some) false pl) pl (Or.inl hk)
+    refine ⟨_, _, (ba.append bb).append bl, ?_, ?_⟩
+    · intro e he
+      simp at he
+      rcases he with rfl | rfl <;> trivial
+    · intro p hp
+      have h1 := hblob p hp
+      have h2 := hleafE _ _ Xi.length ((last ++ [q]).map some) false pl h1
+      simpa [applyEffs, treeApp] using h2
+  · obtain ⟨ba2, _, _⟩ := pblk_alloc_eq (p0 := p0) (live := live) (lo := lo) (allowed := allowed) (covered := covered) (top := top)
+      (allocA ps).2.1 ba.sk ba.np
+    have bL := pblk_write (p0 := p0) (live := live) (lo := lo) (allowed := allowed) (covered := covered) (top := top) ba2.sk ba2.np
+      (.leaf t.key Xi.length (((last ++ [q]).take ((last.length + 1) / 2)).map some) true pl) pl (Or.inl hk)
+    have bR := pblk_write (p0 := p0) (live := live) (lo := lo) (allowed := allowed) (covered := covered) (top := top) ba2.sk ba2.np
+      (.leaf t.key (Xi.length + 1) (((last ++ [q]).drop ((last.length + 1) / 2)).map some) false (allocA (allocA ps).2.1).2.2)
+      (allocA (allocA ps).2.1).2.2 (Or.inl hk)
+    cases hin : t.inode with
+    | none =>
+      rw [hB hc hin]
+      obtain ⟨ba3, _, _⟩ := pblk_alloc_eq (p0 := p0) (live := live) (lo := lo) (allowed := allowed) (covered := covered) (top := top)
+        (allocA (allocA ps).2.1).2.1 ba2.sk ba2.np
+      have bI := pblk_write (p0 := p0) (live := live) (lo := lo) (allowed := allowed) (covered := covered) (top := top) ba3.sk ba3.np
+        (.inode t.key [((last ++ [q]).drop ((last.length + 1) / 2)).headD 0] (allocA (allocA (allocA ps).2.1).2.1).2.2)
+        (allocA (allocA (allocA ps).2.1).2.1).2.2 hk
+      have hall := ((((ba.append bb).append ba2).append (bL.append bR)).append ba3).append bI
+      refine ⟨_, _, by simpa using hall, ?_, ?_⟩
+      · intro e he
+        simp at he
+        rcases he with rfl | rfl | rfl | rfl <;> trivial
+      · intro p hp
+        have h1 := hblob p hp
+        have h2 := hleafE _ _ Xi.length (((last ++ [q]).take ((last.length + 1) / 2)).map some) true pl h1
+        have h3 := hleafE _ _ (Xi.length + 1) (((last ++ [q]).drop ((last.length + 1) / 2)).map some) false (allocA (allocA ps).2.1).2.2 h2
+        have h4 := hinoE _ _ [((last ++ [q]).drop ((last.length + 1) / 2)).headD 0] (allocA (allocA (allocA ps).2.1).2.1).2.2 h3
+        simpa [applyEffs, treeSplit, hin] using h4
+    | some seps =>
+      rw [hC hc seps hin]
+      have bI := pblk_write (p0 := p0) (live := live) (lo := lo) (allowed := allowed) (covered := covered) (top := top) ba2.sk ba2.np
+        (.inode t.key (seps ++ [((last ++ [q]).drop ((last.length + 1) / 2)).headD 0]) t.inodePid) t.inodePid hk
+      have hall := (((ba.append bb).append ba2).append (bL.append bR)).append bI
+      refine ⟨_, _, by simpa using hall, ?_, ?_⟩
+      · intro e he
+        simp at he
+        rcases he with rfl | rfl | rfl | rfl <;> trivial
+      · intro p hp
+        have h1 := hblob p hp
+        have h2 := hleafE _ _ Xi.length (((last ++ [q]).take ((last.length + 1) / 2)).map some) true pl h1
+        have h3 := hleafE _ _ (Xi.length + 1) (((last ++ [q]).drop ((last.length + 1) / 2)).map some) false (allocA (allocA ps).2.1).2.2 h2
+        have h4 := hinoE _ _ (seps ++ [((last ++ [q]).drop ((last.length + 1) / 2)).headD 0]) t.inodePid h3
+        simpa [applyEffs, treeSplit, hin] using h4
+
+end Nervus.Crash
+
+namespace Nervus.Crash
+
+variable {p0 : PImg} {live lo : Nat} {allowed covered : List Nat} {top : Bool}
+
+theorem sinkA_cons (cfg : Cfg) (ps : PS) (t : TreeImg) (q : Nat) (qs : List Nat) :
+    sinkA cfg ps t (q :: qs) =
+      ((sinkOneA cfg ps t q).1 ++ (sinkA cfg (sinkOneA cfg ps t q).2.1 (sinkOneA cfg ps t q).2.2 qs).1,
+       (sinkA cfg (sinkOneA cfg ps t q).2.1 (sinkOneA cfg ps t q).2.2 qs).2.1,
+       (sinkA cfg (sinkOneA cfg ps t q).2.1 (sinkOneA cfg ps t q).2.2 qs).2.2) := rfl
+
+/-- **sinking ascending keys into a tree that is not the live one, leaf splits included**: block
+    judgement, the volatile tree, and the chain shape of the result -/
+theorem pblk_sinkNew (cfg : Cfg) (hcap : 1 ≤ cfg.leafCap) :
+    ∀ (qs : List Nat) (nd : Nat) (ps : PS) (t : TreeImg) (Xi : List (List Nat)) (last : List Nat) (tp : Bool),
+      SameKey p0.hdr ps.pm → min ps.bm ps.pm.nextPage = nd → t.key ≠ live → TreeShape t (Xi ++ [last]) tp →
+      qs.Pairwise (· ≤ ·) → (∀ x ∈ (Xi ++ [last]).flatten, ∀ q ∈ qs, x ≤ q) →
+      ∃ nd' effs, PBlk p0 live allowed covered top lo nd ps (sinkA cfg ps t qs).1 effs nd' (sinkA cfg ps t qs).2.1 ∧
+        (∀ e ∈ effs, TreeE e) ∧
+        (∀ p : PImg, treeFind p t.key = some t → treeFind (applyEffs effs p) t.key = some (sinkA cfg ps t qs).2.2) ∧
+        ∃ Xi' last' tp', TreeShape (sinkA cfg ps t qs).2.2 (Xi' ++ [last']) tp' ∧
+          (Xi' ++ [last']).flatten = (Xi ++ [last]).flatten ++ qs ∧
+          (∀ y, y ∈ (sinkA cfg ps t qs).2.2.blobs ↔ y ∈ qs ∨ y ∈ t.blobs) ∧ (sinkA cfg ps t qs).2.2.key = t.key
+  | [], nd, ps, t, Xi, last, tp, hsk, hnp, _, hsh, _, _ => by
+    refine ⟨nd, [], by simpa [sinkA] using PBlk.nil (live := live) (lo := lo) (allowed := allowed) (covered := covered) (top := top) hsk hnp,
+      by simp, fun p hp => by simpa [sinkA, applyEffs] using hp, Xi, last, tp, by simpa [sinkA] using hsh, by simp, by simp [sinkA], rfl⟩
+  | q :: qs, nd, ps, t, Xi, last, tp, hsk, hnp, hk, hsh, hpw, hq => by
+    obtain ⟨pids, hl⟩ := hsh.leaves
+    have hsp := (sortedNat_iff _).mp hsh.sorted
+    have hflat : (Xi ++ [last]).flatten = Xi.flatten ++ last := by simp
+    have hslast : last.Pairwise (· ≤ ·) := by
+      rw [hflat] at hsp; exact (List.pairwise_append.mp hsp).2.1
+    have hq1 : ∀ x ∈ (Xi ++ [last]).flatten, x ≤ q := fun x hx => hq x hx q (by simp)
+    have hqlast : ∀ x ∈ last, x ≤ q := fun x hx => hq1 x (by rw [hflat]; exact List.mem_append_right _ hx)
+    obtain ⟨nd1, e1, b1, hTE1, hf1⟩ := pblk_sinkOneNew (p0 := p0) (live := live) (lo := lo) (allowed := allowed) (covered := covered) (top := top)
+      cfg nd ps t q Xi last pids hsk hnp hk hl hslast hqlast
+    obtain ⟨Xi1, last1, tp1, hsh1, hflat1, hbl1, hkey1⟩ := sinkOne_shape cfg hcap ps t q Xi last tp hsh hq1
+    have hpw' := List.pairwise_cons.mp hpw
+    obtain ⟨nd2, e2, b2, hTE2, hf2, Xi2, last2, tp2, hsh2, hflat2, hbl2, hkey2⟩ :=
+      pblk_sinkNew cfg hcap qs nd1 (sinkOneA cfg ps t q).2.1 (sinkOneA cfg ps t q).2.2 Xi1 last1 tp1 b1.sk b1.np (by rw [hkey1]; exact hk) hsh1 hpw'.2
+        (by
+          intro x hx q' hq'
+          rw [hflat1] at hx
+          rcases List.mem_append.mp hx with hx | hx
+          · exact hq x hx q' (by simp [hq'])
+          · simp at hx; subst hx; exact hpw'.1 q' hq')
+    rw [sinkA_cons]
+    refine ⟨nd2, e1 ++ e2, b1.append b2, ?_, ?_, Xi2, last2, tp2, hsh2, ?_, ?_, ?_⟩
+    · intro e he
+      rcases List.mem_append.mp he with h | h
+      · exact hTE1 e h
+      · exact hTE2 e h
+    · intro p hp
+      rw [applyEffs_append]
+      have := hf2 (applyEffs e1 p) (by rw [hkey1]; exact hf1 p hp)
+      rw [hkey1] at this
+      exact this
+    · rw [hflat2, hflat1]; simp
+    · intro y
+      rw [hbl2 y, hbl1]
+      simp only [List.mem_cons]
+      constructor
+      · rintro (h | h | h)
+        · exact Or.inl (Or.inr h)
+        · exact Or.inl (Or.inl h)
+        · exact Or.inr h
+      · rintro ((h | h) | h)
+        · exact Or.inr (Or.inl h)
+        · exact Or.inl h
+        · exact Or.inr (Or.inr h)
+    · show (sinkA cfg (sinkOneA cfg ps t q).2.1 (sinkOneA cfg ps t q).2.2 qs).2.2.key = t.key
+      rw [hkey2, hkey1]
+
+end Nervus.Crash
